@@ -312,6 +312,34 @@ pub fn run(p: &[String]) -> Vec<String> {
                 None => vec![hex("<dropped>")],
             }
         }
+        // ---- C01
+        "cell_roundtrip" => {
+            // kind text formula : one cell B2 through save + reload; kind in text|number|bool|error|value (guess) ; formula may be empty
+            let (kind, text, formula) = (unhex(&p[1]), unhex(&p[2]), unhex(&p[3]));
+            let mut book = umya_spreadsheet::new_file();
+            {
+                let c = book.get_sheet_by_name_mut("Sheet1").unwrap().get_cell_mut((2, 2));
+                match kind.as_str() {
+                    "text" => { c.set_value_string(text.clone()); }
+                    "number" => { c.set_value_number(text.parse::<f64>().unwrap()); }
+                    "bool" => { c.set_value_bool(text == "TRUE"); }
+                    "error" => { c.set_error(text.clone()); }
+                    _ => { c.set_value(text.clone()); }
+                }
+                if !formula.is_empty() {
+                    let v = c.get_cell_value().clone();
+                    c.set_formula(formula.clone());
+                    let _ = v;
+                }
+            }
+            let show = |c: &umya_spreadsheet::Cell| format!("{}|{}|{}", c.get_data_type(), c.get_value(), c.get_formula());
+            let before = show(book.get_sheet_by_name("Sheet1").unwrap().get_cell((2, 2)).unwrap());
+            let mut buf: Vec<u8> = Vec::new();
+            umya_spreadsheet::writer::xlsx::write_writer(&book, &mut buf).unwrap();
+            let back = umya_spreadsheet::reader::xlsx::read_reader(std::io::Cursor::new(buf), true).unwrap();
+            let after = match back.get_sheet_by_name("Sheet1").unwrap().get_cell((2, 2)) { Some(c) => show(c), None => "<no cell>".to_string() };
+            vec![hex(&before), hex(&after)]
+        }
         // ---- C03
         "shared_formula" => {
             // formula anchor child : a real package whose sheet part carries a shared formula block, loaded by the real reader
